@@ -565,8 +565,9 @@ def suite_clone(mc_results, tier, seed):
         backends = ["file"] if r["params"]["Backend"] == "file" else ["vec", "anon"]
         for i, ops in enumerate(r["drivers"]):
             be = backends[i % len(backends)]
-            drivers.append({"id": "mc:%s:%d" % (r["name"], i),
-                            "cfg": cfg_for(r["layout"], r["params"]["Kind"], be, cap=r["params"]["Cap"]), "ops": ops})
+            cfg = cfg_for(r["layout"], r["params"]["Kind"], be, cap=r["params"]["Cap"])
+            cfg["magic"] = [0, 7, 513][i % 3]     # (what a clone reports must not depend on the default being 0)
+            drivers.append({"id": "mc:%s:%d" % (r["name"], i), "cfg": cfg, "ops": ops})
     return drivers
 
 
